@@ -53,7 +53,14 @@ type Choices struct {
 	AfterRegDelay   time.Duration // the AMF-initiated message after Registration Complete is sent this much later, while the AMF keeps serving the association
 	SetupReqLen     int           // 0 = as it comes; else the exact size in octets of every PDU SESSION RESOURCE SETUP REQUEST
 	RejectSessionOf int           // index+1 of the UE whose PDU session establishment the SMF refuses (0: none), TS 24.501 6.4.1.4
-	NGSetupRespLen  int           // 0 = as it comes; else the exact size in octets of the NG SETUP RESPONSE
+	// TrailingNewerIE: the AMF follows a later version of TS 38.413 than the emulator's tables and ends a message with an
+	// optional IE (criticality ignore) those tables do not list: 0 none; 1, 2 = Redirection for Voice EPS Fallback (id 146)
+	// possible / not-possible in INITIAL CONTEXT SETUP REQUEST and UE Retention Information (id 147) in NG SETUP RESPONSE;
+	// 3 = an IE of a later release (id > 150) whose value is octets the receiver cannot interpret. A receiver has to
+	// ignore an IE it does not comprehend when its criticality says ignore (TS 38.413 10.3.4.2).
+	TrailingNewerIE int
+	TrailingValue   []byte
+	NGSetupRespLen  int // 0 = as it comes; else the exact size in octets of the NG SETUP RESPONSE
 	R               *rand.Rand
 	AmfIDs          []int64 // per UE index (cycled)
 	NgKSI           byte
@@ -214,6 +221,7 @@ func (a *AMF) down(ue int64, name string, tag string, pdu ngapType.NGAPPDU, nasN
 		a.fail("refamf-internal", "reference encoder failed on %s: %v", name, err)
 		return
 	}
+	b = a.trailingNewerIE(name, b)
 	idx := a.DLSent
 	ev := Event{N: len(a.Events), Dir: "down", UE: ue, NGAP: name, NAS: nasName, SHT: sht, Count: count}
 	if a.Fault.At == idx && !a.FaultFired && a.Fault.Kind != "abort" {
@@ -1807,4 +1815,53 @@ func (a *AMF) UEs() []string {
 		out = append(out, fmt.Sprintf("ue%d supi=imsi-%s ran=%d amf=%d ulcount=%d psi=%d state=%s", u.idx, u.supi, u.ran, u.amf, u.ul, u.psi, u.state))
 	}
 	return out
+}
+
+// trailingNewerIE appends one protocol IE the emulator's tables do not list to an encoded NGAP PDU: the IE count of the
+// message's protocolIEs container goes up by one, the item (id, criticality ignore, open type value) follows the last
+// item and the length determinant of the message value is rewritten.
+func (a *AMF) trailingNewerIE(name string, b []byte) []byte {
+	k := a.Ch.TrailingNewerIE
+	if k == 0 || len(b) < 8 {
+		return b
+	}
+	var id int
+	var val []byte
+	switch {
+	case name == "InitialContextSetupRequest" && k <= 2:
+		id, val = 146, []byte{byte(k-1) << 6} // ENUMERATED {possible, not-possible, ...}: extension bit 0, one bit of index
+	case name == "NGSetupResponse" && k <= 2 && a.Ch.NGSetupRespLen == 0:
+		id, val = 147, []byte{0} // ENUMERATED {ues-retained, ...}
+	case name == "InitialContextSetupRequest" && k == 3 && len(a.Ch.TrailingValue) > 0 && len(a.Ch.TrailingValue) < 128:
+		id, val = 165+len(a.Ch.TrailingValue)%60, a.Ch.TrailingValue
+	default:
+		return b
+	}
+	// choice octet, procedure code, criticality, length determinant of the open type, then the message SEQUENCE
+	hdr, n := 4, int(b[3])
+	if b[3]&0x80 != 0 {
+		if b[3]&0x40 != 0 {
+			return b // fragmented: left alone
+		}
+		hdr, n = 5, int(b[3]&0x3f)<<8|int(b[4])
+	}
+	if hdr+n != len(b) || n < 3 {
+		return b
+	}
+	body := append([]byte(nil), b[hdr:]...)
+	cnt := int(body[1])<<8 | int(body[2])
+	cnt++
+	body[1], body[2] = byte(cnt>>8), byte(cnt)
+	body = append(body, byte(id>>8), byte(id), 0x40, byte(len(val))) // criticality ignore = 01 in the two leading bits
+	body = append(body, val...)
+	out := append([]byte(nil), b[:3]...)
+	if len(body) < 128 {
+		out = append(out, byte(len(body)))
+	} else if len(body) < 16384 {
+		out = append(out, 0x80|byte(len(body)>>8), byte(len(body)))
+	} else {
+		return b
+	}
+	a.Observ[fmt.Sprintf("trailing-newer-ie-%s-id%d-first-octet-%02x", name, id, val[0])]++
+	return append(out, body...)
 }
